@@ -19,6 +19,7 @@ type Scope struct {
 	live   int
 	via    *Flow // flow on which the parent token arrived
 	coh    *Cohort
+	dead   bool // interrupted by a boundary event
 }
 
 // Cohort is one activation of an inclusive fork: the tokens that descend from it. It is used by
@@ -52,7 +53,8 @@ type Model struct {
 	Errs     []string // expected error traces: "xor:<id>", "or:<id>"
 	Stuck    int
 	root     *Scope
-	Late     bool // inclusive joins fire at the latest moment the property allows
+	scopes   []*Scope // active sub-process activations
+	Late     bool     // inclusive joins fire at the latest moment the property allows
 	Requests map[string]int
 	After    map[string]int // how many times a token continued past each node (sub-processes, catch events)
 	Log      []string
@@ -122,7 +124,8 @@ func (m *Model) consume(s *Scope, coh *Cohort) {
 	if s.live < 0 {
 		panic("model: negative token count")
 	}
-	if s.live == 0 && s.sub != nil {
+	if s.live == 0 && s.sub != nil && !s.dead {
+		m.dropScope(s)
 		// the sub-process activation is over: the parent's token continues
 		m.After[s.sub.ID]++
 		m.leave(s.sub, s.parent, m.trueFlows(s.sub.Out), nil, s.coh)
@@ -209,6 +212,7 @@ func (m *Model) arrive(f *Flow, s *Scope, grp *[]*Tok, coh *Cohort) {
 				hasStart = true
 			}
 		}
+		m.scopes = append(m.scopes, inner)
 		if hasStart {
 			// keep the activation alive while its start events fire, so that an inner token that is
 			// consumed at once does not complete the scope before all start events have fired
@@ -265,6 +269,49 @@ func (m *Model) orFork(n *Node, s *Scope, coh *Cohort) {
 	}
 	c := &Cohort{parent: coh, live: 1}
 	m.leave(n, s, fs, nil, c)
+}
+
+func (m *Model) dropScope(s *Scope) {
+	for i, x := range m.scopes {
+		if x == s {
+			m.scopes = append(m.scopes[:i], m.scopes[i+1:]...)
+			return
+		}
+	}
+}
+
+// kill removes every token of a sub-process activation (interrupting boundary event).
+func (m *Model) kill(s *Scope) {
+	s.dead = true
+	m.dropScope(s)
+	for _, t := range m.Pending {
+		for x := t.Scope; x != nil; x = x.parent {
+			if x == s {
+				t.Interrupted = true
+			}
+		}
+	}
+	var keep []*Tok
+	for _, t := range m.waiting {
+		inside := false
+		for x := t.Scope; x != nil; x = x.parent {
+			if x == s {
+				inside = true
+			}
+		}
+		if !inside {
+			keep = append(keep, t)
+		}
+	}
+	m.waiting = keep
+	for _, x := range append([]*Scope{}, m.scopes...) {
+		for p := x.parent; p != nil; p = p.parent {
+			if p == s {
+				x.dead = true
+				m.dropScope(x)
+			}
+		}
+	}
 }
 
 func (m *Model) removeWaiting(t *Tok) {
@@ -545,6 +592,28 @@ func (m *Model) Deliver(kind, ref string) {
 				t.Coh.live++
 			}
 			m.leave(b, t.Scope, m.trueFlows(b.Out), nil, t.Coh)
+		}
+	}
+	// boundary events of active sub-process activations
+	for _, s := range append([]*Scope{}, m.scopes...) {
+		if s.dead {
+			continue
+		}
+		for _, b := range s.sub.Boundary {
+			if !match(b) {
+				continue
+			}
+			m.After[b.ID]++
+			if b.Interrupting {
+				m.kill(s)
+				m.leave(b, s.parent, m.trueFlows(b.Out), nil, s.coh)
+				break
+			}
+			s.parent.live++
+			if s.coh != nil {
+				s.coh.live++
+			}
+			m.leave(b, s.parent, m.trueFlows(b.Out), nil, s.coh)
 		}
 	}
 	m.settle()
